@@ -38,52 +38,63 @@ func uidsOf(r *bluge.Reader, req bluge.SearchRequest) (string, *search.Bucket, e
 	return strings.Join(us, ","), it.Aggregations(), nil
 }
 
+// scoredOf renders uid:score of a query under the sort -_score,uid.
+func scoredOf(r *bluge.Reader, q bluge.Query) (string, error) {
+	it, err := r.Search(context.Background(), bluge.NewTopNSearch(1000, q).SortBy([]string{"-_score", "uid"}))
+	if err != nil {
+		return "", err
+	}
+	var ss []string
+	for {
+		m, err := it.Next()
+		if err != nil {
+			return "", err
+		}
+		if m == nil {
+			break
+		}
+		uid := ""
+		_ = m.VisitStoredFields(func(f string, v []byte) bool {
+			if f == "uid" {
+				uid = string(v)
+				return false
+			}
+			return true
+		})
+		ss = append(ss, fmt.Sprintf("%s:%v", uid, m.Score))
+	}
+	return strings.Join(ss, ","), nil
+}
+
 // ReadExt performs the wider set of reads the reader-isolation oracle repeats
 // on a held reader: document values through a sorted top-N search and a terms
 // aggregation with a nested metric, a dictionary scan, phrase / boolean /
-// conjunction / disjunction / numeric-range queries (the optimised bitmap
-// paths included). The result maps a read's name to a canonical rendering.
-func ReadExt(r *bluge.Reader) map[string]string {
+// conjunction / disjunction / numeric-range / prefix queries (the optimised
+// bitmap paths included), and scored compound queries whose evaluation seeks
+// backwards. The result maps a read's name to a canonical rendering.
+func ReadExt(r *bluge.Reader) map[string]string { return ReadExtRot(r, 0) }
+
+// ReadExtRot performs the same reads starting with the rot-th one: a reader
+// must give the same answers whatever it was asked before.
+func ReadExtRot(r *bluge.Reader, rot int) map[string]string {
 	rv := map[string]string{}
+	steps := extSteps(r, rv)
+	if rot < 0 {
+		rot = -rot
+	}
+	for i := range steps {
+		steps[(i+rot)%len(steps)]()
+	}
+	return rv
+}
+
+func extSteps(r *bluge.Reader, rv map[string]string) []func() {
 	put := func(name, val string, err error) {
 		if err != nil {
 			rv[name] = "ERROR " + err.Error()
 		} else {
 			rv[name] = val
 		}
-	}
-	// sorted top-N (document values of num, tag, uid)
-	top := bluge.NewTopNSearch(1000, bluge.NewMatchAllQuery()).SortBy([]string{"-num", "tag", "uid"})
-	top.AddAggregation("tags", func() search.Aggregation {
-		a := aggregations.NewTermsAggregation(search.Field("tag"), 10)
-		a.AddAggregation("sum", aggregations.Sum(search.Field("num")))
-		return a
-	}())
-	top.AddAggregation("min", aggregations.Min(search.Field("num")))
-	top.AddAggregation("max", aggregations.Max(search.Field("num")))
-	s, b, err := uidsOf(r, top)
-	put("topn-sorted", s, err)
-	if err == nil && b != nil {
-		var parts []string
-		parts = append(parts, fmt.Sprintf("count=%d", b.Count()))
-		if tc, ok := b.Aggregations()["tags"].(search.BucketCalculator); ok {
-			var bs []string
-			for _, tb := range tc.Buckets() {
-				sum := 0.0
-				if m, ok := tb.Aggregations()["sum"].(search.MetricCalculator); ok {
-					sum = m.Value()
-				}
-				bs = append(bs, fmt.Sprintf("%s:%d:%g", tb.Name(), tb.Count(), sum))
-			}
-			sort.Strings(bs)
-			parts = append(parts, strings.Join(bs, ";"))
-		}
-		for _, n := range []string{"min", "max"} {
-			if m, ok := b.Aggregations()[n].(search.MetricCalculator); ok {
-				parts = append(parts, fmt.Sprintf("%s=%g", n, m.Value()))
-			}
-		}
-		rv["aggregations"] = strings.Join(parts, " ")
 	}
 	all := func(q bluge.Query) (string, error) {
 		s, _, err := uidsOf(r, bluge.NewAllMatches(q))
@@ -94,40 +105,110 @@ func ReadExt(r *bluge.Reader) map[string]string {
 		sort.Strings(us)
 		return strings.Join(us, ","), nil
 	}
-	s, err = all(bluge.NewMatchPhraseQuery("quick fox").SetField("body"))
-	put("phrase", s, err)
-	s, err = all(bluge.NewBooleanQuery().AddMust(bluge.NewTermQuery("alpha").SetField("body")).AddMustNot(bluge.NewTermQuery("t1").SetField("tag")).AddShould(bluge.NewTermQuery("red").SetField("body")))
-	put("boolean", s, err)
-	s, err = all(bluge.NewBooleanQuery().AddMust(bluge.NewTermQuery("red").SetField("body"), bluge.NewTermQuery("blue").SetField("body")))
-	put("conjunction", s, err)
-	s, err = all(bluge.NewBooleanQuery().AddShould(bluge.NewTermQuery("fox").SetField("body"), bluge.NewTermQuery("dog").SetField("body"), bluge.NewTermQuery("t2").SetField("tag")))
-	put("disjunction", s, err)
-	s, err = all(bluge.NewNumericRangeInclusiveQuery(0, 10, true, true).SetField("num"))
-	put("numeric-range", s, err)
-	s, err = all(bluge.NewPrefixQuery("g").SetField("body"))
-	put("prefix", s, err)
-	// dictionary scan of the text field: the set of terms (counts are layout
-	// dependent but must not change for one reader)
-	di, err := r.DictionaryIterator("body", nil, nil, nil)
-	if err != nil {
-		put("dictionary", "", err)
-	} else {
+	term := func(f, t string) bluge.Query { return bluge.NewTermQuery(t).SetField(f) }
+	var steps []func()
+	// sorted top-N (document values of num, tag, uid) with aggregations
+	steps = append(steps, func() {
+		top := bluge.NewTopNSearch(1000, bluge.NewMatchAllQuery()).SortBy([]string{"-num", "tag", "uid"})
+		ta := aggregations.NewTermsAggregation(search.Field("tag"), 10)
+		ta.AddAggregation("sum", aggregations.Sum(search.Field("num")))
+		top.AddAggregation("tags", ta)
+		top.AddAggregation("min", aggregations.Min(search.Field("num")))
+		top.AddAggregation("max", aggregations.Max(search.Field("num")))
+		s, b, err := uidsOf(r, top)
+		put("topn-sorted", s, err)
+		if err == nil && b != nil {
+			parts := []string{fmt.Sprintf("count=%d", b.Count())}
+			if tc, ok := b.Aggregations()["tags"].(search.BucketCalculator); ok {
+				var bs []string
+				for _, tb := range tc.Buckets() {
+					sum := 0.0
+					if m, ok := tb.Aggregations()["sum"].(search.MetricCalculator); ok {
+						sum = m.Value()
+					}
+					bs = append(bs, fmt.Sprintf("%s:%d:%g", tb.Name(), tb.Count(), sum))
+				}
+				sort.Strings(bs)
+				parts = append(parts, strings.Join(bs, ";"))
+			}
+			for _, n := range []string{"min", "max"} {
+				if m, ok := b.Aggregations()[n].(search.MetricCalculator); ok {
+					parts = append(parts, fmt.Sprintf("%s=%g", n, m.Value()))
+				}
+			}
+			rv["aggregations"] = strings.Join(parts, " ")
+		}
+	})
+	steps = append(steps, func() {
+		s, err := all(bluge.NewMatchPhraseQuery("quick fox").SetField("body"))
+		put("phrase", s, err)
+	})
+	steps = append(steps, func() {
+		s, err := all(bluge.NewBooleanQuery().AddMust(term("body", "alpha")).AddMustNot(term("tag", "t1")).AddShould(term("body", "red")))
+		put("boolean", s, err)
+	})
+	steps = append(steps, func() {
+		s, err := all(bluge.NewBooleanQuery().AddMust(term("body", "red"), term("body", "blue")))
+		put("conjunction", s, err)
+	})
+	steps = append(steps, func() {
+		s, err := all(bluge.NewBooleanQuery().AddShould(term("body", "fox"), term("body", "dog"), term("tag", "t2")))
+		put("disjunction", s, err)
+	})
+	steps = append(steps, func() {
+		s, err := all(bluge.NewNumericRangeInclusiveQuery(0, 10, true, true).SetField("num"))
+		put("numeric-range", s, err)
+	})
+	steps = append(steps, func() {
+		s, err := all(bluge.NewPrefixQuery("g").SetField("body"))
+		put("prefix", s, err)
+	})
+	// scored compound queries over one field: nested booleans with optional
+	// clauses reached through Advance, repeated terms, a range as must
+	steps = append(steps, func() {
+		q := bluge.NewBooleanQuery().
+			AddMust(bluge.NewNumericRangeInclusiveQuery(-5, 20, true, true).SetField("num"),
+				bluge.NewBooleanQuery().AddMust(term("body", "alpha")).AddShould(term("body", "green"), term("body", "red"))).
+			AddShould(term("body", "alpha"), term("body", "alpha"), bluge.NewMatchQuery("beta gamma").SetField("body"))
+		s, err := scoredOf(r, q)
+		put("scored-nested", s, err)
+	})
+	steps = append(steps, func() {
+		q := bluge.NewBooleanQuery().
+			AddMust(term("tag", "t0")).
+			AddShould(bluge.NewMatchPhraseQuery("red green").SetField("body").SetSlop(1), term("body", "red"), term("body", "green"), bluge.NewPrefixQuery("b").SetField("body")).
+			AddMustNot(term("body", "lazy"))
+		s, err := scoredOf(r, q)
+		put("scored-mixed", s, err)
+	})
+	steps = append(steps, func() {
+		s, err := scoredOf(r, bluge.NewMatchQuery("alpha beta delta omega").SetField("body"))
+		put("scored-match", s, err)
+	})
+	// dictionary scan of the text field: terms with counts (layout dependent,
+	// but constant for one reader)
+	steps = append(steps, func() {
+		di, err := r.DictionaryIterator("body", nil, nil, nil)
+		if err != nil {
+			put("dictionary", "", err)
+			return
+		}
+		defer di.Close()
 		var ts []string
 		for {
 			e, err := di.Next()
 			if err != nil {
 				put("dictionary", "", err)
-				break
+				return
 			}
 			if e == nil {
 				rv["dictionary"] = strings.Join(ts, ",")
-				break
+				return
 			}
 			ts = append(ts, fmt.Sprintf("%s/%d", e.Term(), e.Count()))
 		}
-		_ = di.Close()
-	}
-	return rv
+	})
+	return steps
 }
 
 func diffExt(a, b map[string]string) string {
